@@ -90,10 +90,12 @@ def main(tier: str, seed: int, opts) -> int:
         for key, r in zip(ref_keys, results[: len(ref_jobs)]):
             refs[key] = unwrap(r, "C20 pristine call")["obs"][0]
         hist_obs: dict = {}
+        hist_clock: dict = {}
         clock_reads = clock_jumps = 0
         for (i, rep_i), r in zip(hist_index, results[len(ref_jobs):]):
             o = unwrap(r, "C20 history")
             hist_obs[(i, rep_i)] = o["obs"]
+            hist_clock[(i, rep_i)] = o["clock_reads"]
             clock_reads += o["clock_reads"]
             clock_jumps += o["clock_jumps"]
         digest = hashlib.sha256()
@@ -131,7 +133,10 @@ def main(tier: str, seed: int, opts) -> int:
             if not h["twice"]:
                 continue
             twice_checked += 1
-            if hist_obs[(i, 0)] != hist_obs[(i, 1)] and "exact" not in seen:
+            oa, ob = hist_obs[(i, 0)], hist_obs[(i, 1)]
+            if hist_clock[(i, 0)] < sum(1 for o in h["ops"] if o["op"] == "convert"):
+                oa, ob = [ampworld.strip_obs_timestamp(o) for o in oa], [ampworld.strip_obs_timestamp(o) for o in ob]
+            if oa != ob and "exact" not in seen:
                 seen.add("exact")
                 case = {"pool": slim, "ops": h["ops"], "clock": h["clock"], "mode": "twice", "limit_s": 900}
                 confirm_minimise_report(rep, pool, ENGINE, case, {"verdict": "violation", "signature": {"check": "exact_reproducibility"}},
